@@ -521,3 +521,18 @@ sub('statistics/vectorEstimator/normal.go','''    obj.gamma_max = math.Inf(-1)
       if g > obj.gamma_max {
         obj.gamma_max = g
       }''')
+# --- batch O rules
+sub('algorithm/lineSearch/lineSearch.go','''    for !constraints(alpha_j) {
+      alpha_j *= 0.5
+    }''','''    for {
+      if constraints(alpha_j) {
+        break
+      }
+      alpha_j = alpha_j/2.0
+    }''')
+sub('algorithm/svd/svd.go','''        if B.At(k,k).GetFloat64() == 0.0 {
+          zeroRow(B, U, V, k, inSitu); t = false
+        }''','''        if d := B.At(k,k).GetFloat64(); d == 0.0 {
+          t = false
+          zeroRow(B, U, V, k, inSitu)
+        }''')
